@@ -224,7 +224,8 @@ def oracle(case, out):
                 bad.append(("C17", "one model registered under two files: %s" % r["all"], k))
             if f in allm and allm[f] != r["main"]:
                 bad.append(("C17", "main model is not the registered model of its file", k))
-            if glob and r["grepo"] != r["all"]:
+            norepo = is_str and lazy and not cur_str[0]["refs"]      # no repository object at all (see RepoShow.show_load_gen)
+            if glob and r["grepo"] != r["all"] and not norepo:
                 bad.append(("C17", "the model's repository is not the metamodel's global repository", k))
             for m in r["models"]:
                 mt = TOK_RE.match(m["tok"])
@@ -593,8 +594,8 @@ def gen_case(r, n_files=None, fail=None, with_history=True):
         for _ in range(r.range(1, 2)):
             vis = [e for k in (reach[0] if grepo and reach else []) for e in files[k]["versions"][0]["elems"]] + [e for b in case["builtins"] for e in b]
             elems = r.sample(NAMES[:6], r.range(1, 2))
-            # (RREL '+m:' creates the model's repository per reference: a string main without references has none - not modelled)
-            v0 = {"imports": [], "elems": elems, "refs": [r.choice(elems + vis) for _ in range(r.range(1 if provider == "rrel" else 0, 2))]}
+            # (RREL '+m:' creates the model's repository per reference: a string main without references has none)
+            v0 = {"imports": [], "elems": elems, "refs": [r.choice(elems + vis) for _ in range(r.range(0, 2))]}
             if fail and r.chance(0.6):
                 ph = r.choice(["syn", "obj", "mp", "unres"])
                 if ph == "unres":
